@@ -131,6 +131,16 @@ func runOp(c opCase) (msg, sig, outcome string) {
 	for _, d := range ds {
 		involved[d.GetInstanceName().String()] = true
 	}
+	childOnlyDenied := false
+	if c.Op == "GetFromComposite" && len(ds) > 1 {
+		// Parent and child under different instance names: the parent is what the backend reads, so its name
+		// must be allowed; whether the child's name is consulted as well is left open (the weakest reading:
+		// a denied child name under an allowed parent name is don't-care, see DESIGN 5.14).
+		pn, cn := ds[0].GetInstanceName().String(), ds[1].GetInstanceName().String()
+		if rel.ans[pn] == allow && rel.ans[cn] != allow {
+			childOnlyDenied = true
+		}
+	}
 	allAllowed := true
 	okCodes := map[codes.Code]bool{}
 	for nm := range involved {
@@ -150,7 +160,11 @@ func runOp(c opCase) (msg, sig, outcome string) {
 	case "Get":
 		_, err = ba.Get(ctx, ds[0]).ToByteSlice(100)
 	case "GetFromComposite":
-		_, err = ba.GetFromComposite(ctx, ds[0], ds[0], sliceAll{}).ToByteSlice(100)
+		child := ds[0]
+		if len(ds) > 1 {
+			child = ds[1]
+		}
+		_, err = ba.GetFromComposite(ctx, ds[0], child, sliceAll{}).ToByteSlice(100)
 	case "Put":
 		_, content := mkDigest(c.Digests[0])
 		src = sim.NewSource(sim.Script{Chunks: [][]byte{content}})
@@ -160,6 +174,9 @@ func runOp(c opCase) (msg, sig, outcome string) {
 	}
 	calls := backend.CallCount()
 	outcome = fmt.Sprintf("%s:%s:backendcalls=%d", c.Op, sim.Code(err), calls)
+	if childOnlyDenied {
+		return "", "", outcome + ":child-name-only-denied"
+	}
 	if allAllowed {
 		if err != nil {
 			return fmt.Sprintf("all involved instance names allowed, but %s returned %v", c.Op, err), c.Op + ":allowed-but-error", outcome
@@ -398,7 +415,7 @@ func main() {
 
 	// ---- decorator ----
 	if r.Want("decorator") {
-		sub := r.NewSub("decorator", "venum", "27 assignments x 3 constant other-authorizers x {Get,GetFromComposite,Put: 6 digests; FindMissing: 63 subsets}")
+		sub := r.NewSub("decorator", "venum", "27 assignments x 3 constant other-authorizers x {Get,GetFromComposite,Put: 6 digests; GetFromComposite with the child under another instance name than the parent: 24 pairs; FindMissing: 63 subsets}")
 		done := sub.Timer()
 		var outcomes ev.Set
 		var all []string
@@ -418,6 +435,14 @@ func main() {
 				for _, op := range []string{"Get", "GetFromComposite", "Put"} {
 					for _, d := range all {
 						cases = append(cases, opCase{Op: op, Assign: assign, Others: others, Digests: []string{d}})
+					}
+				}
+				// composite reads whose child digest carries another instance name than the parent
+				for _, pd := range all {
+					for _, cd := range all {
+						if strings.SplitN(pd, "@", 2)[1] != strings.SplitN(cd, "@", 2)[1] {
+							cases = append(cases, opCase{Op: "GetFromComposite", Assign: assign, Others: others, Digests: []string{pd, cd}})
+						}
 					}
 				}
 				for mask := 1; mask < 1<<len(all); mask++ {
